@@ -81,7 +81,12 @@ class Case:
                                 "static bool ns::T<int>::op(const std::map<int, int>&) const"]))
         self.attrs = {}
         for name in r.sample(ATTR_NAMES, r.randint(0, 4)):
-            if r.random() < 0.2:
+            x = r.random()
+            if x < 0.08:
+                self.attrs[name] = ("sn", [])          # present, but a null QString (e.g. appversion never set)
+            elif x < 0.14:
+                self.attrs[name] = ("z", [])           # present, but an invalid QVariant
+            elif x < 0.3:
                 self.attrs[name] = ("i", r.choice([0, 7, 42, 100000]))
             else:
                 self.attrs[name] = ("s", rand_text(r, 0, 14))
@@ -175,7 +180,7 @@ class Case:
                 # the documented use: literal text of at least N units before, of at least M units after
                 if nn:
                     self.emit_lit(rand_text(r, nn, nn + 3, avoid=(37,)))
-                vlen = len(self.attrs[name][1]) if has and self.attrs[name][0] == "s" else 3
+                vlen = len(self.attrs[name][1]) if has and self.attrs[name][0] in ("s", "sn", "z") else 3
                 spec, st = rand_spec(r, vlen)
                 tok = {"k": "attr", "name": name, "has": has, "opt": form != "plain", "n": nn, "m": mm, "spec": spec}
                 self.tokens.append(tok)
@@ -205,7 +210,7 @@ class Case:
     def to_json(self):
         attrs = []
         for k, (t, v) in self.attrs.items():
-            attrs.append({"k": u(k), "t": t, "v": v if t == "s" else [], "i": v if t == "i" else 0})
+            attrs.append({"k": u(k), "t": t, "v": v if t in ("s", "sn", "z") else [], "i": v if t == "i" else 0})
         return {"id": self.id, "pattern": self.pattern, "type": self.type, "text": self.text, "cat": self.cat, "file": self.file,
                 "line": self.line, "func": self.func, "attrs": attrs, "timefmts": sorted(self.timefmts)}
 
@@ -260,7 +265,7 @@ class Case:
                 v = []
                 if t["has"]:
                     ty, val = self.attrs[t["name"]]
-                    v = val if ty == "s" else u(str(val))
+                    v = u(str(val)) if ty == "i" else val
                 toks.append({"k": "attr", "has": t["has"], "val": v, "opt": t["opt"], "n": t["n"], "m": t["m"], "spec": t["spec"]})
             else:
                 toks.append(dict(t))
